@@ -3,6 +3,7 @@ package lists
 import (
 	"github.com/lmorg/murex/lang"
 	"github.com/lmorg/murex/lang/types"
+	"unicode/utf8"
 )
 
 func init() {
@@ -33,10 +34,10 @@ func cmdLeft(p *lang.Process) error {
 	switch {
 	case left > 0:
 		p.Stdin.ReadArray(p.Context, func(b []byte) {
-			if len(b) < left {
+			if charCount(b) < left {
 				err = aw.Write(b)
 			} else {
-				err = aw.Write(b[:left])
+				err = aw.Write(b[:charOffset(b, left)])
 			}
 
 			if err != nil {
@@ -48,10 +49,10 @@ func cmdLeft(p *lang.Process) error {
 	case left < 0:
 		left = left * -1
 		p.Stdin.ReadArray(p.Context, func(b []byte) {
-			if len(b) < left {
+			if charCount(b) < left {
 				err = aw.WriteString("")
 			} else {
-				err = aw.Write(b[:len(b)-left])
+				err = aw.Write(b[:charOffset(b, charCount(b)-left)])
 			}
 
 			if err != nil {
@@ -98,10 +99,10 @@ func cmdRight(p *lang.Process) error {
 	switch {
 	case right > 0:
 		p.Stdin.ReadArray(p.Context, func(b []byte) {
-			if len(b) < right {
+			if charCount(b) < right {
 				err = aw.Write(b)
 			} else {
-				err = aw.Write(b[len(b)-right:])
+				err = aw.Write(b[charOffset(b, charCount(b)-right):])
 			}
 
 			if err != nil {
@@ -113,10 +114,10 @@ func cmdRight(p *lang.Process) error {
 	case right < 0:
 		right = right * -1
 		p.Stdin.ReadArray(p.Context, func(b []byte) {
-			if len(b) < right {
+			if charCount(b) < right {
 				err = aw.WriteString("")
 			} else {
-				err = aw.Write(b[right:])
+				err = aw.Write(b[charOffset(b, right):])
 			}
 
 			if err != nil {
@@ -191,4 +192,20 @@ func copy(write, pre, post []byte) {
 	for i := 0; i < len(post); i++ {
 		write[l+i] = post[i]
 	}
+}
+
+// charCount returns the number of characters (not bytes) in b. A byte that
+// isn't valid UTF-8 counts as one character.
+func charCount(b []byte) int {
+	return utf8.RuneCount(b)
+}
+
+// charOffset returns the byte offset of the n'th character in b
+func charOffset(b []byte, n int) int {
+	var i int
+	for ; n > 0 && i < len(b); n-- {
+		_, size := utf8.DecodeRune(b[i:])
+		i += size
+	}
+	return i
 }
